@@ -135,7 +135,7 @@ Definition e_tpl_dollar : N := 1.       (* "$$" *)
 Definition e_tpl_varexpr : N := 2.      (* unrecognized variable expression *)
 Definition e_tpl_unknown : N := 3.      (* variable not in the schema *)
 Definition e_tpl_unenclosed : N := 4.   (* extractedLen != len(template) *)
-Definition p_tpl_atoi : N := 60.        (* panic(err) in createVariableExpressionSolver *)
+Definition e_tpl_atoi : N := 5.         (* strconv.Atoi error in createVariableExpressionSolver: bound out of range *)
 Definition p_fuel : N := 99.
 
 Definition compile_part (schema : list bytes) (p : rawpart) : outcome part :=
@@ -155,10 +155,10 @@ Definition compile_part (schema : list bytes) (p : rawpart) : outcome part :=
       | Some loc =>
         (* createVariableExpressionSolver: paramStart := 0, paramEnd := math.MaxInt32 *)
         match (match a with [] => Some 0%Z | _ => atoi a end) with
-        | None => Panic p_tpl_atoi
+        | None => Err e_tpl_atoi
         | Some ps =>
           match (match b with [] => Some max_int32 | _ => atoi b end) with
-          | None => Panic p_tpl_atoi
+          | None => Err e_tpl_atoi
           | Some pe => Ok (PSlice loc ps pe)
           end
         end
